@@ -1,1 +1,3 @@
-import Model.Rainflow.Spec
+/- C01: chunk independence. The property theorems live in the imported files. -/
+import Proofs.C01Core
+import Proofs.C03Sym
